@@ -67,7 +67,7 @@ def gen_script(rng, n, timeout):
 
 
 def gen_case(rng, struct_fields):
-    buf = rng.choice(BUFS)
+    buf = rng.choice(BUFS) if rng.random() < 0.6 else rng.randrange(4, 600)     # every size, not only a list
     op = rng.choice(["read", "read", "write", "write", "fill", "link_read", "link_write", "struct", "vcpu"])
     align = rng.randrange(4)
     base = rng.choice([0x60000000, 0x70000000, 0x00400000, 0xf5000000]) + 4 * rng.randrange(1000)
@@ -284,7 +284,8 @@ def run_impl(case, table, env=None):
                         data = struct.pack("<" + {"c": "b", "C": "B", "v": "H", "V": "I"}[pack] * cnt, *vals)
                         value = vals if cnt > 1 else vals[0]
                     else:
-                        value = "".join(r.choice("abcXYZ") for _ in range(r.randrange(0, size + 1)))
+                        value = "".join(r.choice("abcXYZ") for _ in range(
+                            r.choice([0, 1, size - 1, size, size, r.randrange(0, size + 1)])))     # incl. exactly the field width
                         data = value.encode().ljust(size, b"\x00")
                     if op == "struct":
                         mc.write_struct_field("sv", case["field"], value, x, y, p)
